@@ -176,6 +176,7 @@ fn plan_of(step: &Value) -> Plan {
         }
     }
     p.crash_empty = step.get("crash_empty").and_then(|x| x.as_bool()).unwrap_or(false);
+    p.crash_torn = step.get("crash_torn").and_then(|x| x.as_u64());
     if let Some(f) = step.get("fail").and_then(|x| x.as_array()) {
         for pair in f {
             if let (Some(k), Some(kind)) = (pair[0].as_i64(), pair[1].as_str()) {
@@ -1188,6 +1189,7 @@ impl Runner {
             if k.is_empty() { vec!["NotFound".to_string(), "AlreadyExists".into(), "PermissionDenied".into(), "Other".into()] } else { k }
         };
         let is_delete = base["op"] == "delete";
+        let torn = st.get("torn").and_then(|x| x.as_u64()).unwrap_or(0) as usize;
         self.do_save();
         let verbs = if is_delete { self.do_delete(&base, Plan::default(), None) } else { self.do_backup(&base, Plan::default(), None) };
         self.run_steps(&then);
@@ -1199,7 +1201,15 @@ impl Runner {
                 continue;
             }
             match mode.as_str() {
-                "crash" => cands.push((k, "crash".into())),
+                "crash" => {
+                    cands.push((k, "crash".into()));
+                    // a kill inside the (non-atomic) recursive removal of a directory
+                    if v == "remove_dir_all" {
+                        for j in 0..torn {
+                            cands.push((k, format!("torn:{}", seed.wrapping_mul(131).wrapping_add(j as u64 * 7919 + k as u64))));
+                        }
+                    }
+                }
                 "crash_empty" => {
                     if v == "write" {
                         cands.push((k, "crash_empty".into()))
@@ -1224,7 +1234,7 @@ impl Runner {
             // stratified: the prologue (lock check, band creation, head, block listing) and the
             // epilogue (last hunk, tail / lock release) are always taken; the middle is sampled
             let last = verbs.len().saturating_sub(3);
-            let mut picked: Vec<(usize, String)> = cands.iter().filter(|(k, w)| (*k <= 9 || *k >= last) && (w == "crash" || w == "crash_empty" || w == "Other")).cloned().collect();
+            let mut picked: Vec<(usize, String)> = cands.iter().filter(|(k, w)| (*k <= 9 || *k >= last || w.starts_with("torn:")) && (w == "crash" || w == "crash_empty" || w == "Other" || w.starts_with("torn:"))).cloned().collect();
             let mut pool: Vec<(usize, String)> = cands.iter().filter(|c| !picked.contains(c)).cloned().collect();
             for _ in 0..sample {
                 if pool.is_empty() {
@@ -1247,6 +1257,10 @@ impl Runner {
                 "crash_empty" => {
                     plan.crash_at = Some(k);
                     plan.crash_empty = true;
+                }
+                t if t.starts_with("torn:") => {
+                    plan.crash_at = Some(k);
+                    plan.crash_torn = t[5..].parse::<u64>().ok();
                 }
                 kind => {
                     plan.fail.insert(k, kind.to_string());
